@@ -312,3 +312,321 @@ Proof.
       + exists e. split; [exact He|]. split; [exact Hc|]. eapply ps_ok_exit; eauto. }
   destruct Hpre as [Hpre|Hpre]; [apply (inv_res _ I) in Hpre|]; eapply RJ_mono; eauto.
 Qed.
+
+Lemma Inv_step s l s' : Inv s -> step true l s = Some s' -> Inv s'.
+Proof.
+  intros I H. constructor.
+  - eapply step_ps; eauto.
+  - eapply step_map; eauto.
+  - eapply step_h; eauto.
+  - eapply step_reg; eauto.
+  - eapply step_drop; eauto.
+  - destruct (step_nw _ _ _ I H) as [Hn Hw]. intros i Hi. apply Hw. lia.
+  - eapply step_count; eauto.
+  - eapply step_res; eauto.
+Qed.
+
+Lemma Inv_reach n s : reach n s -> Inv s.
+Proof. induction 1; [apply Inv_init|eapply Inv_step; eauto]. Qed.
+
+(** * no lost wake-up *)
+Lemma ps_ok_ahead p :
+  ps_ok p = true -> ongoing p = true \/ inited p = false -> notify_ahead (wc p) = true.
+Proof.
+  unfold ps_ok. intros H Hf. apply andb_prop in H as [_ H].
+  destruct (wc p) as [| |[]| | | | | | | |]; cbn; auto;
+    repeat match goal with H : _ && _ = true |- _ => apply andb_prop in H; destruct H end;
+    repeat match goal with H : negb _ = true |- _ => apply negb_true_iff in H end;
+    destruct Hf; congruence.
+Qed.
+
+Lemma Inv_no_lost_wakeup s : Inv s -> NoLostWakeup s.
+Proof.
+  intros I i e Hw.
+  assert (He : e < nps s) by (apply (inv_h _ I i); rewrite Hw; reflexivity).
+  split; [exact He|]. apply ps_ok_ahead; [apply (inv_ps _ I); exact He|apply (inv_reg _ I i); exact Hw].
+Qed.
+
+Lemma Inv_no_bug s e : Inv s -> e < nps s -> wc (pss s e) <> WBug.
+Proof.
+  intros I He Hb. pose proof (inv_ps _ I e He) as H. unfold ps_ok in H. rewrite Hb in H.
+  now rewrite andb_false_r in H.
+Qed.
+
+(** every step of worker e other than a slot store either runs the notifying block or gets
+    strictly closer to it *)
+Lemma notify_all e w i : w i = AReg e false -> notify e w i = AReg e true.
+Proof. unfold notify. intros ->. now rewrite Nat.eqb_refl. Qed.
+
+Lemma progress_step s l s' e :
+  Inv s -> step true l s = Some s' -> progress_of e l = true ->
+  notify_ahead (wc (pss s e)) = true ->
+  (forall i, wts s i = AReg e false -> wts s' i = AReg e true) \/
+  (notify_ahead (wc (pss s' e)) = true /\ wdist (wc (pss s' e)) < wdist (wc (pss s e)) /\
+   forall i, wts s' i = wts s i).
+Proof.
+  intros I H Hp Ha.
+  destruct l; cbn in Hp; try discriminate Hp; apply Nat.eqb_eq in Hp; subst e0;
+    step_inv H; cbn [wts pss set_w set_p set_wts remove_entry] in *; bool_hyps;
+    try rewrite upd_same.
+  all: try (cbn in Ha; discriminate Ha).
+  all: try (left; intros i Hi; apply notify_all; exact Hi).
+  all: try (right; unfold set_wc; cbn; rewrite ?Heqw; cbn; repeat split; auto; lia).
+  exfalso. pose proof (inv_ps _ I e ltac:(assumption)) as Hps. unfold ps_ok in Hps.
+  rewrite Heqw, Heqb0 in Hps. cbn in Hps. now rewrite andb_false_r in Hps.
+Qed.
+
+Lemma ahead_dist c : notify_ahead c = true -> 0 < wdist c.
+Proof. destruct c; cbn; intros; try discriminate; lia. Qed.
+
+(** any other step leaves worker e where it is and an unnotified caller of e unnotified *)
+Lemma other_step s l s' e :
+  Inv s -> step true l s = Some s' -> progress_of e l = false -> e < nps s ->
+  wc (pss s' e) = wc (pss s e) /\ forall i, wts s i = AReg e false -> wts s' i = AReg e false.
+Proof.
+  intros I H Hp He.
+  destruct l; cbn in Hp; step_inv H; cbn [wts pss set_w set_p set_wts remove_entry] in *; bool_hyps;
+    try (apply Nat.eqb_neq in Hp);
+    (split; [unfold upd; try (destruct (Nat.eqb_spec e e0); [subst; try congruence; try lia|]); try reflexivity|]).
+  all: try (intros i' Hi'; unfold upd; destruct (Nat.eqb_spec i' i); [subst i'; congruence|exact Hi']).
+  all: try (intros i' Hi'; exact Hi').
+  all: try (intros i' Hi'; unfold notify; rewrite Hi'; destruct (Nat.eqb_spec e e0); [congruence|reflexivity]).
+  all: try (destruct (Nat.eqb_spec e (nps s)); [lia|reflexivity]).
+  all: cbn; congruence.
+Qed.
+
+Lemma passed_step s l s' i :
+  step true l s = Some s' -> passed (wts s i) = true -> passed (wts s' i) = true.
+Proof.
+  intros H Hp.
+  destruct l; step_inv H; cbn [wts set_w set_p set_wts remove_entry] in *; bool_hyps; auto;
+    try (unfold notify; destruct (wts s i) as [| | | |e' [|]| | | | |]; try discriminate Hp;
+         try (destruct (e' =? e)); reflexivity);
+    unfold upd; (destruct (Nat.eqb_spec i i0); [subst i0|exact Hp]);
+    try (match goal with Hw : wts s i = _ |- _ => rewrite Hw in Hp; discriminate Hp end);
+    try (destruct got); try (destruct ret); reflexivity.
+Qed.
+
+Lemma passed_run tr : forall s s' i,
+  run true tr s = Some s' -> passed (wts s i) = true -> passed (wts s' i) = true.
+Proof.
+  induction tr as [|l tr IH]; cbn; intros s s' i H Hp.
+  - now injection H as <-.
+  - destruct (step true l s) as [s1|] eqn:Hs; [|discriminate]. eapply IH; eauto using passed_step.
+Qed.
+
+Lemma Inv_run tr : forall s s', Inv s -> run true tr s = Some s' -> Inv s'.
+Proof.
+  induction tr as [|l tr IH]; cbn; intros s s' I H.
+  - now injection H as <-.
+  - destruct (step true l s) as [s1|] eqn:Hs; [|discriminate]. eauto using Inv_step.
+Qed.
+
+(** liveness, fairness made explicit as a count: once worker e has taken [wdist] steps (the
+    completion of the lookup is one of them), every caller registered with e is past its wait *)
+Lemma wake_within_run tr : forall s s' i e,
+  Inv s -> run true tr s = Some s' -> wts s i = AReg e false ->
+  wdist (wc (pss s e)) <= count_l (progress_of e) tr -> passed (wts s' i) = true.
+Proof.
+  induction tr as [|l tr IH]; intros s s' i e I H Hw Hd.
+  - destruct (Inv_no_lost_wakeup _ I i e Hw) as [_ Ha]. apply ahead_dist in Ha. cbn in Hd. lia.
+  - cbn in H. destruct (step true l s) as [s1|] eqn:Hs; [|discriminate].
+    destruct (Inv_no_lost_wakeup _ I i e Hw) as [He Ha].
+    pose proof (Inv_step _ _ _ I Hs) as I1.
+    unfold count_l in Hd. cbn [filter] in Hd.
+    destruct (progress_of e l) eqn:Hp.
+    + destruct (progress_step _ _ _ _ I Hs Hp Ha) as [Hn|(Ha1 & Hlt & Hsame)].
+      * eapply passed_run; eauto. rewrite (Hn i Hw). reflexivity.
+      * eapply (IH s1 s' i e I1 H); [rewrite Hsame; exact Hw|].
+        cbn [length] in Hd. unfold count_l. lia.
+    + destruct (other_step _ _ _ _ I Hs Hp He) as [Hwc Hk].
+      eapply (IH s1 s' i e I1 H); [apply Hk; exact Hw|]. rewrite Hwc. exact Hd.
+Qed.
+
+
+(** * enabledness: nobody who has something to do is blocked *)
+Lemma wres_eqb_refl r : wres_eqb r r = true.
+Proof. destruct r as [| |[| |[]]]; reflexivity. Qed.
+
+(** a worker with a notifying block ahead always has an enabled non-store step; in [WFetching]
+    that step is the completion of the lookup -- the explicit premise "the lookup terminates" *)
+Lemma worker_enabled s e :
+  Inv s -> e < nps s -> notify_ahead (wc (pss s e)) = true ->
+  exists l s', progress_of e l = true /\ step true l s = Some s'.
+Proof.
+  intros I He Ha. pose proof (inv_ps _ I e He) as Hps.
+  apply Nat.ltb_lt in He.
+  destruct (wc (pss s e)) eqn:Hw; try discriminate Ha.
+  - (* WInit *) destruct (alive s) eqn:Hal.
+    + exists (LBegin e). eexists. split; [cbn; apply Nat.eqb_refl|].
+      unfold step; cbv zeta. rewrite He, Hal, Hw. cbn [andb chk].
+      assert (Ho : ongoing (pss s e) = false).
+      { unfold ps_ok in Hps. rewrite Hw in Hps.
+        repeat (apply andb_prop in Hps; destruct Hps as [Hps ?]).
+        repeat match goal with H : _ && _ = true |- _ => apply andb_prop in H; destruct H end.
+        now apply negb_true_iff. }
+      rewrite Ho. reflexivity.
+    + exists (LQuit e XMgrDropped). eexists. split; [cbn; apply Nat.eqb_refl|].
+      unfold step; cbv zeta. rewrite He, Hw, Hal. reflexivity.
+  - exists (LFetched e FOk). eexists. split; [cbn; apply Nat.eqb_refl|].
+    unfold step; cbv zeta. rewrite He, Hw. reflexivity.
+  - exists (LSetErr e). eexists. split; [cbn; apply Nat.eqb_refl|].
+    unfold step; cbv zeta. rewrite He, Hw. reflexivity.
+  - exists (LComplete e). eexists. split; [cbn; apply Nat.eqb_refl|].
+    unfold step; cbv zeta. rewrite He, Hw. reflexivity.
+  - destruct (alive s && has_entry s) eqn:Hc.
+    + exists (LExitRemove e). eexists. split; [cbn; apply Nat.eqb_refl|].
+      unfold step; cbv zeta. rewrite He, Hw. cbn [chk]. rewrite Hc. reflexivity.
+    + exists (LExitBlock e). eexists. split; [cbn; apply Nat.eqb_refl|].
+      unfold step; cbv zeta. rewrite He, Hw. cbn [chk].
+      replace (negb (alive s) || negb (has_entry s)) with true
+        by (destruct (alive s), (has_entry s); cbn in *; congruence). reflexivity.
+  - exists (LExitBlock e). eexists. split; [cbn; apply Nat.eqb_refl|].
+    unfold step; cbv zeta. rewrite He, Hw. reflexivity.
+Qed.
+
+(** a caller inside the manager can always take its next step, unless it waits for a
+    notification that has not come (then [worker_enabled] applies to its worker) *)
+Lemma caller_enabled s i :
+  Inv s ->
+  match wts s i with AStart | ADone _ | AReg _ false => False | _ => True end ->
+  exists l s', caller_of l = Some i /\ step true l s = Some s'.
+Proof.
+  intros I Hc. destruct (wts s i) eqn:Hw; try contradiction.
+  - (* APeeked *) destruct (pmap s) as [e|] eqn:Hm.
+    + exists (LEnsure i false e). eexists. split; [reflexivity|].
+      unfold step; cbv zeta. rewrite Hw. unfold in_map. rewrite Hm, Nat.eqb_refl.
+      pose proof (inv_map _ I e Hm) as He. apply Nat.ltb_lt in He. rewrite He. reflexivity.
+    + exists (LEnsure i true (nps s)). eexists. split; [reflexivity|].
+      unfold step; cbv zeta. rewrite Hw, Nat.eqb_refl. unfold has_entry. rewrite Hm. reflexivity.
+  - exists (LLoad1 i (active (pss s e))). eexists. split; [reflexivity|].
+    unfold step; cbv zeta. rewrite Hw. cbn [chk]. rewrite eqb_reflx. reflexivity.
+  - exists (LCheck i (negb (ongoing (pss s e)) && inited (pss s e))). eexists. split; [reflexivity|].
+    unfold step; cbv zeta. rewrite Hw, eqb_reflx. reflexivity.
+  - destruct notified; [|contradiction]. exists (LWake i). eexists. split; [reflexivity|].
+    unfold step. rewrite Hw. reflexivity.
+  - exists (LLoad2 i (active (pss s e))). eexists. split; [reflexivity|].
+    unfold step; cbv zeta. rewrite Hw. cbn [chk]. rewrite eqb_reflx. reflexivity.
+  - exists (LErr i (err_result (pss s e))). exists (set_w s i (ADone (err_result (pss s e)))).
+    split; [reflexivity|].
+    unfold step; cbv zeta. rewrite Hw. cbn [chk]. rewrite wres_eqb_refl.
+    unfold err_result. destruct (cerr (pss s e)); reflexivity.
+  - exists (LContains i (has_entry s)). eexists. split; [reflexivity|].
+    unfold step; cbv zeta. rewrite Hw. cbn [chk]. rewrite eqb_reflx. reflexivity.
+  - (* CContained *) destruct (pmap s) as [e|] eqn:Hm.
+    + exists (LEnsure i false e). eexists. split; [reflexivity|].
+      unfold step; cbv zeta. rewrite Hw. unfold in_map. rewrite Hm, Nat.eqb_refl.
+      pose proof (inv_map _ I e Hm) as He. apply Nat.ltb_lt in He. rewrite He. reflexivity.
+    + exists (LEnsure i true (nps s)). eexists. split; [reflexivity|].
+      unfold step; cbv zeta. rewrite Hw, Nat.eqb_refl. unfold has_entry. rewrite Hm. reflexivity.
+Qed.
+
+(** * after the manager is dropped *)
+Lemma alive_false s :
+  alive s = false <-> udrop s = true /\ forall e, e < nps s -> holds (wc (pss s e)) = false.
+Proof.
+  unfold alive. rewrite orb_false_iff, negb_false_iff. split; intros [Hu Hh]; split; auto.
+  - intros e He. destruct (holds (wc (pss s e))) eqn:Hc; [|reflexivity].
+    assert (existsb (fun e => holds (wc (pss s e))) (seq 0 (nps s)) = true).
+    { apply existsb_exists. exists e. split; [apply in_seq; lia|exact Hc]. }
+    congruence.
+  - destruct (existsb _ _) eqn:Hx; [|reflexivity].
+    apply existsb_exists in Hx as (e & Hin & Hc). apply in_seq in Hin. rewrite Hh in Hc by lia.
+    discriminate.
+Qed.
+
+Definition is_worker_of (e : nat) (l : label) : bool :=
+  match worker_of l with Some e' => Nat.eqb e' e | None => false end.
+
+(** once the manager is gone no step revives it, no worker is spawned, and every step of a
+    worker brings it strictly closer to [WExited] *)
+Lemma dead_step s l s' :
+  Inv s -> alive s = false -> step true l s = Some s' ->
+  alive s' = false /\ nps s' = nps s /\
+  forall e, e < nps s ->
+    if is_worker_of e l then xdist (wc (pss s' e)) < xdist (wc (pss s e))
+    else wc (pss s' e) = wc (pss s e).
+Proof.
+  intros I Hd H. pose proof (proj1 (alive_false s) Hd) as [Hu Hh].
+  pose proof (inv_drop _ I Hu) as Hidle.
+  assert (Hgoal : udrop s' = true /\ nps s' = nps s /\
+                  (forall e, e < nps s -> holds (wc (pss s' e)) = false) /\
+                  forall e, e < nps s ->
+                    if is_worker_of e l then xdist (wc (pss s' e)) < xdist (wc (pss s e))
+                    else wc (pss s' e) = wc (pss s e)).
+  { destruct l; unfold is_worker_of; cbn [worker_of];
+      step_inv H; cbn [udrop nps pss wts set_w set_p set_wts remove_entry] in *; bool_hyps;
+      try congruence;
+      try (match goal with Hw : wts _ ?i = _ |- _ =>
+             specialize (Hidle i); rewrite Hw in Hidle; discriminate Hidle end);
+      try (match goal with Hw : wc (pss _ ?e) = _, Hlt : ?e < nps _ |- _ =>
+             specialize (Hh e Hlt); rewrite Hw in Hh; discriminate Hh end).
+    all: refine (conj Hu (conj eq_refl (conj _ _))); intros e' He'; unfold upd;
+      destruct (Nat.eqb_spec e' e); try subst e'; auto;
+      try (destruct (Nat.eqb_spec e e'); [congruence|auto]);
+      try rewrite Nat.eqb_refl; unfold set_wc; cbn;
+      try (match goal with Hw : wc (pss _ ?e) = _ |- _ => rewrite Hw end); cbn; try lia; auto.
+    }
+  destruct Hgoal as (Hu' & Hn & Hh' & Hx). split; [|split; auto].
+  apply alive_false. split; [exact Hu'|]. rewrite Hn. exact Hh'.
+Qed.
+
+Lemma dead_worker_enabled s e :
+  Inv s -> alive s = false -> e < nps s -> wc (pss s e) <> WExited ->
+  exists l s', is_worker_of e l = true /\ step true l s = Some s'.
+Proof.
+  intros I Hd He Hne. pose proof (proj1 (alive_false s) Hd) as [Hu Hh].
+  specialize (Hh e He). pose proof (Inv_no_bug _ _ I He) as Hnb.
+  apply Nat.ltb_lt in He. unfold is_worker_of.
+  destruct (wc (pss s e)) eqn:Hw; try discriminate Hh; try congruence.
+  - exists (LQuit e XMgrDropped). eexists. split; [cbn; apply Nat.eqb_refl|].
+    unfold step; cbv zeta. rewrite He, Hw, Hd. reflexivity.
+  - exists (LQuit e XMgrDropped). eexists. split; [cbn; apply Nat.eqb_refl|].
+    unfold step; cbv zeta. rewrite He, Hw, Hd. reflexivity.
+  - exists (LExitBlock e). eexists. split; [cbn; apply Nat.eqb_refl|].
+    unfold step; cbv zeta. rewrite He, Hw, Hd. reflexivity.
+  - exists (LExitBlock e). eexists. split; [cbn; apply Nat.eqb_refl|].
+    unfold step; cbv zeta. rewrite He, Hw. reflexivity.
+  - exists (LExitClear e). eexists. split; [cbn; apply Nat.eqb_refl|].
+    unfold step; cbv zeta. rewrite He, Hw. reflexivity.
+Qed.
+
+Lemma ps_ok_exited p : ps_ok p = true -> wc p = WExited -> HandleDead p.
+Proof.
+  unfold ps_ok, HandleDead. intros H Hw. rewrite Hw in H.
+  repeat match goal with H : _ && _ = true |- _ => apply andb_prop in H; destruct H end.
+  repeat match goal with H : negb _ = true |- _ => apply negb_true_iff in H end.
+  repeat split; auto.
+  destruct (cerr p) as [[| |x]|]; try discriminate. eauto.
+Qed.
+
+Lemma after_drop_run tr : forall s s' e,
+  Inv s -> alive s = false -> run true tr s = Some s' -> e < nps s ->
+  xdist (wc (pss s e)) <= count_l (is_worker_of e) tr ->
+  alive s' = false /\ nps s' = nps s /\ wc (pss s' e) = WExited /\ HandleDead (pss s' e).
+Proof.
+  induction tr as [|l tr IH]; intros s s' e I Hd H He Hx.
+  - cbn in H. injection H as <-. cbn in Hx.
+    pose proof (proj1 (alive_false s) Hd) as [Hu Hh]. specialize (Hh e He).
+    pose proof (Inv_no_bug _ _ I He) as Hnb.
+    assert (Hw : wc (pss s e) = WExited).
+    { destruct (wc (pss s e)); cbn in *; try lia; try discriminate; congruence. }
+    refine (conj Hd (conj eq_refl (conj Hw _))).
+    apply ps_ok_exited; [apply (inv_ps _ I); exact He|exact Hw].
+  - cbn in H. destruct (step true l s) as [s1|] eqn:Hs; [|discriminate].
+    destruct (dead_step _ _ _ I Hd Hs) as (Hd1 & Hn1 & Hk). specialize (Hk e He).
+    pose proof (Inv_step _ _ _ I Hs) as I1.
+    unfold count_l in Hx. cbn [filter] in Hx.
+    destruct (IH s1 s' e I1 Hd1 H ltac:(lia)) as (A & B & C & D).
+    + destruct (is_worker_of e l); [cbn [length] in Hx; unfold count_l; lia|].
+      rewrite Hk. exact Hx.
+    + refine (conj A (conj _ (conj C D))). congruence.
+Qed.
+
+Lemma run_reach n tr : forall s s', reach n s -> run true tr s = Some s' -> reach n s'.
+Proof.
+  induction tr as [|l tr IH]; cbn; intros s s' R H.
+  - now injection H as <-.
+  - destruct (step true l s) as [s1|] eqn:Hs; [|discriminate]. eapply IH; [|exact H].
+    econstructor; eauto.
+Qed.
